@@ -73,6 +73,14 @@ func (r *Run) Violate(v Violation) {
 	k := "viol:" + v.Property + ":" + v.Signature
 	if r.Counts[k] < 4 && len(r.Viol) < 200 {
 		r.Viol = append(r.Viol, v)
+		// written at once as well: a harness that dies or hangs later must not take its findings with it
+		if f, err := os.OpenFile(filepath.Join(r.Dir, "oracle.partial.jsonl"), os.O_APPEND|os.O_CREATE|os.O_WRONLY, 0o644); err == nil {
+			if b, err := json.Marshal(v); err == nil {
+				f.Write(b)
+				f.Write([]byte("\n"))
+			}
+			f.Close()
+		}
 	}
 	r.Counts[k]++
 	r.Counts["oracle_violations:"+v.Property]++
